@@ -850,12 +850,35 @@ class GlobalVariableHashRule(HashRule):
     @staticmethod
     def _serialize_value(var: object) -> Optional[bytes]:
         try:
-            return json.dumps(MementoCodec.encode_arg(var), sort_keys=True).encode(
-                "utf-8"
-            )
+            serialized = json.dumps(MementoCodec.encode_arg(var), sort_keys=True)
         except (TypeError, ValueError):
             # not a type that Memento understands or can hash. Do not hash.
             return None
+        # The argument codec writes a tuple as a list and every dictionary key as a string.
+        # A program can tell these apart, so they are described in addition (and only when
+        # present, which leaves the hash of every other value as it was).
+        marks = []  # type: List[str]
+        GlobalVariableHashRule._collect_type_marks(var, "", marks)
+        if marks:
+            serialized += ";" + json.dumps(marks, sort_keys=True)
+        return serialized.encode("utf-8")
+
+    @staticmethod
+    def _collect_type_marks(var: object, path: str, marks: List[str]):
+        if isinstance(var, (list, tuple)):
+            if isinstance(var, tuple):
+                marks.append("{}:tuple".format(path))
+            for idx, item in enumerate(var):
+                GlobalVariableHashRule._collect_type_marks(
+                    item, "{}[{}]".format(path, idx), marks
+                )
+        elif isinstance(var, dict):
+            for key in sorted(var.keys(), key=_stable_repr):
+                if not isinstance(key, str):
+                    marks.append("{}:key {}".format(path, _stable_repr(key)))
+                GlobalVariableHashRule._collect_type_marks(
+                    var[key], "{}[{}]".format(path, _stable_repr(key)), marks
+                )
 
     def describe(self) -> str:
         return "{} {}".format(super().describe(), self.last_value.decode("utf-8"))
